@@ -24,13 +24,22 @@ bulk Selector per parser version live as long as the worker process and are eval
 tree the worker replays, in an order that alternates root names / namespaces / root kinds; each result is
 compared with the specification's string.  A failure records the first and the previous tree as history and
 --replay drives a fresh compiled expression through that history.
-Root kinds: R1 document, R2 element with implied document, R3 fragment=True, R4 lone comment/PI node, R5
+Root kinds x routes: every way the API can root a tree -- R1 ElementTree / lxml tree, R2 Element with
+fragment=None, R3 Element with fragment=True, R6 Element with fragment=False (promoted to the child of a real
+document node; also an ALREADY BUILT element node tree promoted by get_node_tree(tree, fragment=False)), each as
+the raw object, as the node tree returned by get_node_tree() passed as root, with a node of that tree passed
+as item=, and through ONE XPathContext(root=...) built by the caller and reused for every evaluation on the
+tree (its own node tree is identified separately) -- on both tree libraries; R4 lone comment/PI node; R5
 EXTENDED document (several element / text / comment / PI children of the document node), bound through the
 library's own two builders: get_node_tree(<document>...</document>).get_document_node(replace=True) on xml.etree
 and lxml, and fn:parse-xml-fragment(text) (lxml context; nodes paired in document order because the library
 parses the text itself).  Zero-length text chunks (elem.text = '' / tail = '', kind "te") are text nodes of the
 tree (both libraries keep them, the builders wrap them, sibling counting includes them); they carry no value,
 so they are recognised by parent + preceding sibling and come back from select() as ''.
+The names "b" and "urn:n" of the specification are abstract tokens: configurations `names*` bind them to a
+namespace name starting with a digit / containing an apostrophe and to local names with XML name characters
+that are not \\w in Python (1:1 table applied to the pieces before concatenation).
+etree_iter_paths(root, '') (relative paths without './') is the fifth scheme `bare` of the specification.
 Second oracle for the SPEC: libxml2 evaluates an XPath 1.0 transliteration of the structured
 steps on the lxml document (disagreement = MachineryError).
 
@@ -66,7 +75,7 @@ ALL_DECLS = {"none", "p", "dp"}
 CONFIGS = {
     'quick': [
         ('N1-R4', dict(N=1, Kinds={"c", "pp", "pa"}, RootCfg="R4", Decls={"none"}, DocLevel=False)),
-        ('N3-R1', dict(N=3, Kinds=ALL_KINDS, RootCfg="R1", Decls=ALL_DECLS, DocLevel=True)),
+        ('N3-R1', dict(N=3, Kinds=ALL_KINDS, RootCfg="R1", Decls={"none", "dp"}, DocLevel=True)),
         ('N3-R2', dict(N=3, Kinds=ALL_KINDS, RootCfg="R2", Decls={"p", "dp"}, DocLevel=False)),
         ('N3-R3', dict(N=3, Kinds=ALL_KINDS, RootCfg="R3", Decls={"p", "dp"}, DocLevel=False)),
         ('N4-R1-pos', dict(N=4, Kinds={"a0", "b0", "t", "c", "pp", "pa"}, RootCfg="R1", Decls={"none"}, DocLevel=True)),
@@ -77,6 +86,14 @@ CONFIGS = {
         # extended documents: several element / text / comment / PI children of the document node
         ('N3-R5', dict(N=3, Kinds={"a0", "b0", "xa0", "t", "te", "c", "pp", "pa"}, RootCfg="R5", Decls={"none"},
                        DocLevel=False)),
+        # an Element handed over with fragment=False (promoted to a real document), raw and from a built node tree
+        ('N3-R6', dict(N=3, Kinds={"a0", "b0", "an", "xa0", "xan", "t", "c", "pp"}, RootCfg="R6", Decls={"p"},
+                       DocLevel=False)),
+        # other concrete names for the abstract tokens "urn:n" and "b"
+        ('N3-R2-names1', dict(N=3, Kinds={"a0", "b0", "an", "xan", "t"}, RootCfg="R2", Decls={"p"}, DocLevel=False),
+         {'urn:n': '1x', 'b': '\u2103'}),
+        ('N3-R1-names2', dict(N=3, Kinds={"a0", "b0", "an", "xan", "t"}, RootCfg="R1", Decls={"p"}, DocLevel=False),
+         {'urn:n': "it's", 'b': '\u0928\u093e\u092e'}),
     ],
     'thorough': [
         ('N1-R4', dict(N=1, Kinds={"c", "pp", "pa"}, RootCfg="R4", Decls={"none"}, DocLevel=False)),
@@ -90,6 +107,12 @@ CONFIGS = {
         ('N3-R5', dict(N=3, Kinds={"a0", "b0", "xa0", "t", "te", "c", "pp", "pa"}, RootCfg="R5", Decls={"none"},
                        DocLevel=False)),
         ('N4-R5', dict(N=4, Kinds={"a0", "b0", "t", "te", "c", "pp"}, RootCfg="R5", Decls={"none"}, DocLevel=False)),
+        ('N4-R6', dict(N=4, Kinds={"a0", "b0", "an", "xa0", "xan", "t", "c", "pp"}, RootCfg="R6", Decls={"p"},
+                       DocLevel=False)),
+        ('N3-R2-names1', dict(N=3, Kinds={"a0", "b0", "an", "xan", "t"}, RootCfg="R2", Decls={"p"}, DocLevel=False),
+         {'urn:n': '1x', 'b': '\u2103'}),
+        ('N3-R1-names2', dict(N=3, Kinds={"a0", "b0", "an", "xan", "t"}, RootCfg="R1", Decls={"p"}, DocLevel=False),
+         {'urn:n': "it's", 'b': '\u0928\u093e\u092e'}),
     ],
 }
 # the former counting algorithm (before fix bbeb72e), modelled in the spec (ImplPos), must be REFUTED by TLC
@@ -104,6 +127,28 @@ INVARIANTS = ['TypeOK', 'Laws']
 
 TAG = {'a0': 'a', 'b0': 'b', 'an': '{urn:n}a', 'ad': '{urn:d}a', 'bd': '{urn:d}b'}
 ATTR = {'xa0': 'a', 'xan': '{urn:n}a'}
+ALPHA: dict = {}      # binding of the abstract name tokens "b" / "urn:n" to concrete names (per configuration)
+
+
+def set_alphabet(alpha: dict | None) -> None:
+    """Bind the abstract tokens of the specification to concrete names: 1:1 table, default identity."""
+    global ALPHA
+    ALPHA = dict(alpha or {})
+    b, un = ALPHA.get('b', 'b'), ALPHA.get('urn:n', 'urn:n')
+    TAG.update({'b0': b, 'an': f'{{{un}}}a', 'bd': f'{{urn:d}}{b}'})
+    ATTR.update({'xan': f'{{{un}}}a'})
+    NSMAP.update({'p': {'p': un}, 'dp': {'': 'urn:d', 'p': un}})
+
+
+def render(pieces) -> str:
+    """Lexical path of the specification -> text: concatenation of the pieces (names through the binding table)."""
+    return ''.join(ALPHA.get(pc, pc) for pc in pieces)
+
+
+def name_classes() -> dict:
+    un, b = ALPHA.get('urn:n', 'urn:n'), ALPHA.get('b', 'b')
+    return dict(uri_class=('digit-first' if un[:1].isdigit() else 'quote' if "'" in un else 'plain'),
+                name_class=('ascii' if b.isascii() else 'non-ascii'))
 TARGET = {'pp': 'pi', 'pa': 'a'}
 NSMAP = {'none': {}, 'p': {'p': 'urn:n'}, 'dp': {'': 'urn:d', 'p': 'urn:n'}}
 NS_IDX = {'xml': 1, '': 2, 'p': 3}
@@ -219,7 +264,7 @@ class XDoc:
 
     def ns_uri(self, nid: int) -> str:
         j = nid % 100
-        return XML_NS if j == 1 else 'urn:d' if j == 2 else 'urn:n'
+        return XML_NS if j == 1 else 'urn:d' if j == 2 else ALPHA.get('urn:n', 'urn:n')
 
     def project(self, items) -> list:
         """Result list of select() -> abstract ids; namespace nodes are URI strings -> ('nsuri', uri)."""
@@ -231,7 +276,7 @@ class XDoc:
                     out.append(int(it[1:]))
                 elif it == '':
                     out.append(('emptytext',))
-                elif it in (XML_NS, 'urn:d', 'urn:n'):
+                elif it in (XML_NS, 'urn:d', ALPHA.get('urn:n', 'urn:n')):
                     out.append(('nsuri', it))
                 else:
                     out.append(('?', it))
@@ -371,17 +416,28 @@ def chain_flags(parent: tuple, kind: tuple, n: int) -> dict:
         elif k in TAG:
             elem_pi_clash |= any(kind[j - 1] in TARGET and TARGET[kind[j - 1]] == TAG[k] for j in sib)
         m = parent[m - 1]
-    return dict(pi_mixed=pi_mixed, elem_pi_clash=elem_pi_clash, pi_target_pi=has_pi_target_pi)
+    uses_uri_n = uses_name_b = False
+    m = n // 100 if n >= 100 else n
+    while m:
+        uses_uri_n |= kind[m - 1] in ('an', 'xan')
+        uses_name_b |= kind[m - 1] in ('b0', 'bd')
+        m = parent[m - 1]
+    return dict(pi_mixed=pi_mixed, elem_pi_clash=elem_pi_clash, pi_target_pi=has_pi_target_pi,
+                path_has_uri_n=uses_uri_n, path_has_name_b=uses_name_b)
 
 
 def xp1_step(st) -> str:
     """XPath 1.0 transliteration of one structured step (second oracle only)."""
     k = st['k']
     pos = f'[{st["pos"]}]' if st['pos'] else ''
+
+    def lit(x):
+        x = ALPHA.get(x, x)
+        return f'"{x}"' if "'" in x else f"'{x}'"
     if k == 'elem':
-        return f"*[local-name()='{st['nm']}' and namespace-uri()='{st['ns']}']{pos}"
+        return f"*[local-name()={lit(st['nm'])} and namespace-uri()={lit(st['ns'])}]{pos}"
     if k == 'attr':
-        return f"@*[local-name()='{st['nm']}' and namespace-uri()='{st['ns']}']"
+        return f"@*[local-name()={lit(st['nm'])} and namespace-uri()={lit(st['ns'])}]"
     if k == 'text':
         return 'text()' + pos
     if k == 'comment':
@@ -412,6 +468,7 @@ def run_case(case: dict):
     """Re-run exactly one recorded observation; returns the observed value (string, id list or outcome tuple)."""
     parent, kind, decl = tuple(case['parent']), tuple(case['kind']), case['decl']
     root_cfg, lib = case['root'], case['lib']
+    set_alphabet(case.get('alphabet'))
     if root_cfg == 'R4':
         return r4_path(kind[0])
     env = Env(parent, kind, decl, lib, root_cfg)
@@ -448,8 +505,16 @@ class Env:
         self.ep = elementpath
         self.lib = lib
         self.root_cfg = root_cfg
-        self.kw = {'fragment': True} if root_cfg == 'R3' else {}
-        if root_cfg == 'R5':
+        self.kw = {'fragment': True} if root_cfg == 'R3' else {'fragment': False} if root_cfg == 'R6' else {}
+        if root_cfg == 'R6' and lib.endswith('-promoted'):
+            # an ALREADY BUILT element-rooted node tree, promoted to a document by get_node_tree(.., fragment=False)
+            self.doc = XDoc(parent, kind, decl, lib.split('-')[0])
+            self.ns = self.doc.namespaces
+            built = elementpath.get_node_tree(self.doc.root, namespaces=self.ns)
+            self.nt = elementpath.get_node_tree(built, namespaces=self.ns, fragment=False)
+            self.n2i = node_ids(self.doc, self.nt)
+            self.root = self.nt
+        elif root_cfg == 'R5':
             # extended document node (several element / text children), built by the library's own two routes
             self.doc = XDoc(parent, kind, decl, 'lxml' if lib == 'lxml-parse' else lib, wrapper=True)
             self.ns = None
@@ -471,6 +536,18 @@ class Env:
             self.n2i = node_ids(self.doc, self.nt)
         self.by_id = {i: nd for (i, nd) in self.n2i.values() if not isinstance(i, tuple)}
         self._iter = {}
+        self._ctx = None
+
+    def reused_context(self):
+        """ONE XPathContext built by the caller from the root as it was handed over, reused for every evaluation
+        on this tree (its own node tree: identified separately)."""
+        if self._ctx is None:
+            ctx = self.ep.XPathContext(self.root, namespaces=self.ns, **self.kw)
+            ids = self.n2i if ctx.root is self.nt else (
+                pair_in_document_order(self.doc, ctx.root, sorted(self.by_id)) if self.lib == 'lxml-parse'
+                else node_ids(self.doc, ctx.root))
+            self._ctx = (ctx, ctx.item, ids, {i: nd for (i, nd) in ids.values() if not isinstance(i, tuple)})
+        return self._ctx
 
     # -- the strings produced by the code ------------------------------------------------
     def real_string(self, api: str, n: int, parser: str | None = None):
@@ -482,16 +559,23 @@ class Env:
                 r = self.ep.select(self.nt, expr, namespaces=self.ns, parser=parsers()[parser],
                                    item=self.by_id[n], **self.kw)
                 return r
+            if api == 'fn:path(reused context)':
+                ctx, item0, _ids, by_id = self.reused_context()
+                try:
+                    ctx.item = by_id[n]
+                    return parsers()[parser]().parse('path(.)').evaluate(ctx)
+                finally:
+                    ctx.item = item0
             if api == 'fn:path(raw item)':
                 item = self.doc.tree if n == 0 else self.doc.objs[n]
                 return self.ep.select(self.root, 'path(.)', namespaces=self.ns, parser=parsers()[parser],
                                       item=item, **self.kw)
-            if api in ('etree_iter_paths', 'etree_iter_paths(/)'):
+            if api in ('etree_iter_paths', 'etree_iter_paths(/)', "etree_iter_paths('')"):
                 d = self._iter.get(api)
                 if d is None:
                     from elementpath.etree import etree_iter_paths
                     it = etree_iter_paths(self.doc.root) if api == 'etree_iter_paths' else \
-                        etree_iter_paths(self.doc.root, '/')
+                        etree_iter_paths(self.doc.root, '/' if api == 'etree_iter_paths(/)' else '')
                     d = self._iter[api] = {self.doc.obj2id.get(id(e)): p for e, p in it}
                 return d.get(n, ('missing', 'not yielded'))
         except Exception as e:
@@ -524,6 +608,14 @@ class Env:
                     res = [res]
                 return self.doc.project(res)
             tok = P(namespaces=self.ns).parse(text)
+            if mode == 'ctx':
+                ctx, item0, ids, by_id = self.reused_context()
+                try:
+                    ctx.item = by_id[item_id] if item_id is not None else item0
+                    res = list(tok.select(ctx))
+                finally:
+                    ctx.item = item0
+                return [ids[id(nd)][0] if id(nd) in ids else ('?', repr(nd)) for nd in res]
             ckw = dict(kw)
             if item_id is not None:
                 ckw['item'] = self.by_id[item_id]
@@ -550,7 +642,7 @@ NS_OF_DECL = {'none': (1,), 'p': (1, 3), 'dp': (1, 2, 3)}
 
 def abstract_ids(parent, kind, decl, root_cfg) -> list:
     """The node ids of a tree as the specification numbers them (checked against the TLC states of the tree)."""
-    ids = [0] if root_cfg in ('R1', 'R5') else []
+    ids = [0] if root_cfg in ('R1', 'R5', 'R6') else []
     for i in range(1, len(parent) + 1):
         ids.append(i)
         if kind[i - 1] in TAG:
@@ -611,10 +703,11 @@ def shared() -> Shared:
 
 def tree_worker(job):
     """Replay every state (node) and every transition (step) of one tree on both libraries."""
-    (parent, kind, decl, root_cfg, states, edges, libs) = job
+    (parent, kind, decl, root_cfg, states, edges, libs, alpha) = job
+    set_alphabet(alpha)
     rec = Recorder()
     st = rec.stats
-    txt = {cur: {k: ''.join(v) for k, v in t.items()} for cur, t in states.items()}
+    txt = {cur: {k: render(v) for k, v in t.items()} for cur, t in states.items()}
     par_of = {dst: (src, step) for (src, dst, step) in edges}
 
     top_elem = next(i for i in range(1, len(parent) + 1) if parent[i - 1] == 0 and kind[i - 1] in TAG) \
@@ -623,6 +716,7 @@ def tree_worker(job):
     def feat(n, **kw):
         f = dict(kind=kind_of(kind, n), root=root_cfg)
         f.update(chain_flags(parent, kind, n))
+        f.update(name_classes())
         if n and n < 100 and kind[n - 1] in TARGET:
             f['pi_target'] = TARGET[kind[n - 1]]
         f['parent_is_root'] = bool(0 < n < 100 and top_elem and parent[n - 1] == top_elem)
@@ -630,7 +724,7 @@ def tree_worker(job):
         return f
 
     def case(lib, **kw):
-        c = dict(parent=list(parent), kind=list(kind), decl=decl, root=root_cfg, lib=lib)
+        c = dict(parent=list(parent), kind=list(kind), decl=decl, root=root_cfg, lib=lib, alphabet=alpha)
         c.update(kw)
         return c
 
@@ -691,12 +785,16 @@ def tree_worker(job):
             for pv in ('3.0', '3.1'):
                 checks.append(('fn:path', pv, t['fn']))
             checks.append(('fn:path()', '3.1', t['fn']))
-            if kcls in ('doc', 'elem', 'comment', 'pi') and root_cfg != 'R5':
+            checks.append(('fn:path(reused context)', '3.0', t['fn']))
+            if kcls in ('doc', 'elem', 'comment', 'pi') and root_cfg != 'R5' and not lib.endswith('-promoted') \
+                    and not (root_cfg == 'R6' and n == 0):     # the promoted document has no object of the caller
                 checks.append(('fn:path(raw item)', '3.0', t['fn']))
             if kcls in ('elem', 'comment', 'pi') and t['rel']:
                 checks.append(('etree_iter_paths', None, t['rel']))
                 if t['frag']:
                     checks.append(('etree_iter_paths(/)', None, t['frag']))
+                if t['bare']:
+                    checks.append(("etree_iter_paths('')", None, t['bare']))
             for api, pv, exp in checks:
                 obs = env.real_string(api, n, pv)
                 st['evaluations'] += 1
@@ -716,6 +814,8 @@ def tree_worker(job):
                 evals.append(('rel', t['rel'], doc.root_id))
             if t['frag']:
                 evals.append(('frag', t['frag'], None))
+            if t['bare'] and kcls in ('elem', 'comment', 'pi'):
+                evals.append(('bare', t['bare'], doc.root_id))
             if t['step'] and n in par_of and (par_of[n][0] != 0 or root_cfg in ('R1', 'R5')):
                 evals.append(('step', t['step'], par_of[n][0]))
             for scheme, text, item_id in evals:
@@ -724,6 +824,8 @@ def tree_worker(job):
                 # fn:path / node.path texts: both parsers x both result routes; the other schemes: one route per parser
                 combos = [(pv, mode) for pv in ('3.0', '3.1') for mode in ('select', 'nodes')] \
                     if scheme in ('fn', 'doc') else [('3.0', 'select'), ('3.1', 'nodes')]
+                if scheme == 'fn':
+                    combos.append(('3.1', 'ctx'))      # the caller's own XPathContext, reused
                 for pv, mode in combos:
                     exp = expected_projection(doc, n, mode)
                     obs = env.evaluate(text, pv, mode, item_id, scheme)
@@ -749,12 +851,12 @@ def tree_worker(job):
                               outcome=string_outcome(o0, txt[n0]['fn']) if bad else 'length'),
                          case(lib, what='bulk', parser=pv, xml=doc.xml()), exp, obs)
         # ---- history: the worker's ONE parsed path() Selector / token / bulk Selector, on this tree as well
-        here = dict(parent=list(parent), kind=list(kind), decl=decl, lib=lib, root=root_cfg)
+        here = dict(parent=list(parent), kind=list(kind), decl=decl, lib=lib, root=root_cfg)   # same alphabet
         hist = [sh.first, sh.prev]
         reuse = 'first-tree' if sh.first is None else 'later-tree'
         for n in all_nodes:
-            for route in ('selector', 'token'):
-                for pv in ('3.0', '3.1'):
+            for route, pvs in (('selector', ('3.0',)), ('token', ('3.1',))):
+                for pv in pvs:
                     exp = txt[n]['fn']
                     obs = sh.path_of(env, n, route, pv)
                     st['evaluations'] += 1
@@ -853,6 +955,11 @@ def run(chk: core.Check) -> None:
         'extended documents (R5) are built by get_document_node(replace=True) (xml.etree, lxml) and by '
         'fn:parse-xml-fragment in an lxml context (under xml.etree that function drops comments/PIs and adds the '
         'parser\'s static namespaces as namespace nodes: tree building, not judged here)',
+        'a document-rooted node tree handed over again with fragment=True (get_node_tree(doc_node, fragment=True)) is not a '
+        'root kind of the universe: the element keeps its document parent and fn:path answers () by design of the root check',
+        'namespace names that XPath itself cannot spell in Q{..} are excluded: leading/double spaces (EQName URIs are '
+        'whitespace-normalised), braces, strings rejected by xs:anyURI (XQST0046 is implementation-dependent); schema node '
+        'trees (SchemaElementNode.path) are outside the XML tree quantifier of C14',
         'zero-length text chunks are nodes of the tree as the tree builders define it (XDM itself has no empty text nodes)',
         'shared compiled expressions: history = the sequence of trees of one worker process (order fixed by the sorted, '
         'root-name-interleaved job list); a failure is replayed from the first and the previous tree',
@@ -862,8 +969,9 @@ def run(chk: core.Check) -> None:
     only = os.environ.get('VERIF_C14_ONLY')      # development aid: comma separated configuration names
     if only:
         cfgs = [c for c in cfgs if c[0] in only.split(',')]
-    chk.coverage['configs'] = [dict(name=n, **{k: (sorted(v) if isinstance(v, set) else v) for k, v in c.items()})
-                               for n, c in cfgs]
+    cfgs = [(c[0], c[1], c[2] if len(c) > 2 else None) for c in cfgs]
+    chk.coverage['configs'] = [dict(name=n, name_binding=a, **{k: (sorted(v) if isinstance(v, set) else v)
+                                                               for k, v in c.items()}) for n, c, a in cfgs]
     all_oracle = 0
     from concurrent.futures import ThreadPoolExecutor
 
@@ -875,9 +983,9 @@ def run(chk: core.Check) -> None:
         return tla.run_tlc('PathStrings', cfg, wd, dump_dot=dot, workers=4, heap='4g'), dot
 
     pool = ThreadPoolExecutor(max_workers=3)     # TLC runs overlap with the replay of earlier configurations
-    futs = [(name, consts, pool.submit(tlc_job, name, consts)) for name, consts in cfgs]
+    futs = [(name, consts, alpha, pool.submit(tlc_job, name, consts)) for name, consts, alpha in cfgs]
     pool.shutdown(wait=False)
-    for name, consts, fut in futs:
+    for name, consts, alpha, fut in futs:
         r, dot = fut.result()
         tla.require_ok(r, f'PathStrings/{name}')
         chk.model(f'PathStrings/{name}', r)
@@ -901,9 +1009,11 @@ def run(chk: core.Check) -> None:
             doclevel = sum(1 for x in p if x == 0) > 1
             if root_cfg == 'R5':     # '' text chunks cannot be written as XML text: no parse-xml-fragment route
                 libs = ('etree', 'lxml') + (() if 'te' in k else ('lxml-parse',))
+            elif root_cfg == 'R6':   # Element + fragment=False, and an already built element tree promoted afterwards
+                libs = ('etree', 'lxml', 'etree-promoted', 'lxml-promoted')
             else:
                 libs = ('lxml',) if doclevel else ('etree', 'lxml')
-            jobs.append((p, k, d, root_cfg, sts, eds, libs))
+            jobs.append((p, k, d, root_cfg, sts, eds, libs, alpha))
         jobs.sort(key=lambda j: (j[0], j[1], j[2]))
         # consecutive trees of a worker get DIFFERENT root names / namespaces (history of the shared tokens)
         by_root: dict = {}
@@ -937,6 +1047,14 @@ def run(chk: core.Check) -> None:
                             break
         print(f'  {name}: trees={len(trees)} states={n_states} edges={n_edges} tlc={r.wall_s:.1f}s '
               f'replay={time.time() - t0:.1f}s', flush=True)
+    if os.environ.get('VERIF_C14_CLASSES'):      # development aid: every unmatched failure class, one line each
+        import collections
+        cls = collections.Counter()
+        for f in chk.failures:
+            cls[' '.join(f'{k}={v}' for k, v in sorted(f['features'].items())
+                         if v not in (None, False) and k not in ('lib', 'parser', 'mode'))] += 1
+        with open(os.environ['VERIF_C14_CLASSES'], 'w') as fh:
+            fh.write('\n'.join(f'{n} {k}' for k, n in sorted(cls.items())) + '\n')
     chk.coverage['exhaustive'] = True
     cov = chk.coverage
     if not (cov.get('transitions') and cov.get('distinct_nontrivial') and cov.get('second_oracle_evaluations')
